@@ -17,17 +17,23 @@ Variable sport : Z.
 Definition dir (d : bool) (ps : list packet) : list packet := filter (fun p => Bool.eqb (from_server_id sip sport p) d) ps.
 
 (* the extraction side of get_tls_records alone: the records in the order they are handed to the handler *)
-Fixpoint gtr_trace (sb cb : list packet) (ps : list packet) : result (list packet * list packet * list (bool * tls_record)) :=
+Record xstate := { x_sb : list packet; x_cb : list packet; x_sn : option Z; x_cn : option Z }.
+
+Fixpoint gtr_trace (x : xstate) (ps : list packet) : result (xstate * list (bool * tls_record)) :=
   match ps with
-  | [] => Ok (sb, cb, [])
+  | [] => Ok (x, [])
   | p :: t =>
       if from_server_id sip sport p then
-        do r <- extract (sb ++ [p]); do x <- gtr_trace (fst r) cb t;
-        Ok (fst (fst x), snd (fst x), map (pair true) (snd r) ++ snd x)
+        do r <- extract (x_sn x) (x_sb x ++ [p]); let '(nx, buf, recs) := r in
+        do y <- gtr_trace {| x_sb := buf; x_cb := x_cb x; x_sn := nx; x_cn := x_cn x |} t;
+        Ok (fst y, map (pair true) recs ++ snd y)
       else
-        do r <- extract (cb ++ [p]); do x <- gtr_trace sb (fst r) t;
-        Ok (fst (fst x), snd (fst x), map (pair false) (snd r) ++ snd x)
+        do r <- extract (x_cn x) (x_cb x ++ [p]); let '(nx, buf, recs) := r in
+        do y <- gtr_trace {| x_sb := x_sb x; x_cb := buf; x_sn := x_sn x; x_cn := nx |} t;
+        Ok (fst y, map (pair false) recs ++ snd y)
   end.
+
+Definition xof (st : rstate) : xstate := {| x_sb := rs_server_pbuf st; x_cb := rs_client_pbuf st; x_sn := rs_server_next st; x_cn := rs_client_next st |}.
 
 Fixpoint handle_trace (c : tcore) (tr : list (bool * tls_record)) : result (tcore * list traffic_entry) :=
   match tr with
@@ -52,23 +58,23 @@ Qed.
 
 (* get_tls_records hands the handler exactly the trace, in order, and collects what the handler emits *)
 Theorem gtr_is_trace ps : forall st st', get_tls_records C suite_table suite_parts keylog sip sport st ps = Ok st' ->
-  exists tr em, gtr_trace (rs_server_pbuf st) (rs_client_pbuf st) ps = Ok (rs_server_pbuf st', rs_client_pbuf st', tr) /\
+  exists tr em, gtr_trace (xof st) ps = Ok (xof st', tr) /\
              handle_trace (rs_core st) tr = Ok (rs_core st', em) /\ rs_traffic st' = rs_traffic st ++ em.
 Proof.
   induction ps as [|p ps IH]; intros st st' H; cbn [get_tls_records gtr_trace] in *.
   - injection H as <-. exists [], []. rewrite app_nil_r. repeat split; reflexivity.
   - destruct (feed_packet _ _ _ _ _ _ st p) as [st1|] eqn:E; [|discriminate]. cbn [bind] in H.
-    destruct (IH _ _ H) as (tr & em & Ht & Hh & Hm). unfold feed_packet in E.
+    destruct (IH _ _ H) as (tr & em & Ht & Hh & Hm). unfold feed_packet in E. cbn [xof x_sb x_cb x_sn x_cn].
     destruct (from_server_id sip sport p).
-    + destruct (extract _) as [r|]; [|discriminate]. cbn [bind] in E.
+    + destruct (extract _ _) as [[[nx buf] recs]|]; [|discriminate]. cbn [bind] in E.
       destruct (handle_records _ _ _ _ _ _ _) as [x|] eqn:Ec; [|discriminate]. cbn [bind] in E. injection E as <-.
-      cbn [rs_server_pbuf rs_client_pbuf rs_core rs_traffic bind] in *. rewrite Ht. cbn [bind fst snd].
+      unfold xof in Ht. cbn [rs_server_pbuf rs_client_pbuf rs_server_next rs_client_next rs_core rs_traffic bind] in *. rewrite Ht. cbn [bind fst snd].
       eexists _, (snd x ++ em). split; [reflexivity|]. split.
       * rewrite handle_trace_app. rewrite <- handle_records_trace, Ec. cbn [bind]. rewrite Hh. reflexivity.
       * rewrite Hm, app_assoc. reflexivity.
-    + destruct (extract _) as [r|]; [|discriminate]. cbn [bind] in E.
+    + destruct (extract _ _) as [[[nx buf] recs]|]; [|discriminate]. cbn [bind] in E.
       destruct (handle_records _ _ _ _ _ _ _) as [x|] eqn:Ec; [|discriminate]. cbn [bind] in E. injection E as <-.
-      cbn [rs_server_pbuf rs_client_pbuf rs_core rs_traffic bind] in *. rewrite Ht. cbn [bind fst snd].
+      unfold xof in Ht. cbn [rs_server_pbuf rs_client_pbuf rs_server_next rs_client_next rs_core rs_traffic bind] in *. rewrite Ht. cbn [bind fst snd].
       eexists _, (snd x ++ em). split; [reflexivity|]. split.
       * rewrite handle_trace_app. rewrite <- handle_records_trace, Ec. cbn [bind]. rewrite Hh. reflexivity.
       * rewrite Hm, app_assoc. reflexivity.
@@ -83,20 +89,21 @@ Lemma side_other d rs : side (negb d) (map (pair d) rs) = [].
 Proof. unfold side. induction rs as [|r rs IH]; cbn [map filter fst]; [reflexivity|]. destruct d; cbn [Bool.eqb negb]; exact IH. Qed.
 
 (* each direction is an independent reassembly machine fed its own packets: interleaving does not matter *)
-Theorem trace_per_direction ps : forall sb cb sb' cb' tr, gtr_trace sb cb ps = Ok (sb', cb', tr) ->
-  feed sb (dir true ps) = Ok (sb', side true tr) /\ feed cb (dir false ps) = Ok (cb', side false tr).
+Theorem trace_per_direction ps : forall x x' tr, gtr_trace x ps = Ok (x', tr) ->
+  feed (x_sn x) (x_sb x) (dir true ps) = Ok (x_sn x', x_sb x', side true tr) /\
+  feed (x_cn x) (x_cb x) (dir false ps) = Ok (x_cn x', x_cb x', side false tr).
 Proof.
-  induction ps as [|p ps IH]; intros sb cb sb' cb' tr H; cbn [gtr_trace dir filter] in *.
-  - injection H as <- <- <-. split; reflexivity.
+  induction ps as [|p ps IH]; intros x x' tr H; cbn [gtr_trace dir filter] in *.
+  - injection H as <- <-. split; reflexivity.
   - fold (dir true ps) (dir false ps). destruct (from_server_id sip sport p) eqn:Ed; cbn [Bool.eqb feed].
-    + destruct (extract (sb ++ [p])) as [r|]; [|discriminate]. cbn [bind] in H.
-      destruct (gtr_trace (fst r) cb ps) as [[[sb1 cb1] tr1]|] eqn:E; [|discriminate]. cbn [bind fst snd] in H. injection H as <- <- <-.
-      destruct (IH _ _ _ _ _ E) as [H1 H2]. cbn [bind]. rewrite H1. cbn [bind fst snd]. split.
+    + destruct (extract (x_sn x) (x_sb x ++ [p])) as [[[nx buf] recs]|]; [|discriminate]. cbn [bind] in H.
+      destruct (gtr_trace _ ps) as [[x1 tr1]|] eqn:E; [|discriminate]. cbn [bind fst snd] in H. injection H as <- <-.
+      destruct (IH _ _ _ E) as [H1 H2]. cbn [x_sb x_cb x_sn x_cn] in *. cbn [bind]. rewrite H1. cbn [bind]. split.
       * rewrite side_app, side_same. reflexivity.
       * rewrite side_app. rewrite (side_other true). exact H2.
-    + destruct (extract (cb ++ [p])) as [r|]; [|discriminate]. cbn [bind] in H.
-      destruct (gtr_trace sb (fst r) ps) as [[[sb1 cb1] tr1]|] eqn:E; [|discriminate]. cbn [bind fst snd] in H. injection H as <- <- <-.
-      destruct (IH _ _ _ _ _ E) as [H1 H2]. cbn [bind]. rewrite H2. cbn [bind fst snd]. split.
+    + destruct (extract (x_cn x) (x_cb x ++ [p])) as [[[nx buf] recs]|]; [|discriminate]. cbn [bind] in H.
+      destruct (gtr_trace _ ps) as [[x1 tr1]|] eqn:E; [|discriminate]. cbn [bind fst snd] in H. injection H as <- <-.
+      destruct (IH _ _ _ E) as [H1 H2]. cbn [x_sb x_cb x_sn x_cn] in *. cbn [bind]. rewrite H2. cbn [bind]. split.
       * rewrite side_app. rewrite (side_other false). exact H1.
       * rewrite side_app, side_same. reflexivity.
 Qed.
